@@ -479,8 +479,32 @@ def apply_op(rep, op, idx, run_seed, side_hook=None):
         if getattr(rep, 'saved_ckpt', None) is None:
             return {'ok': 0}
         sd = torch.load(io.BytesIO(rep.saved_ckpt), weights_only=True)
-        res = m.load_state_dict(sd, strict=False)
+        if op.get('assign'):
+            # load_state_dict(assign=True): the checkpoint tensors BECOME the parameters (new objects); the script
+            # re-creates its optimizers afterwards, as it must
+            rg_before = {n: p.requires_grad for n, p in m.named_parameters()}
+            res = m.load_state_dict(sd, strict=False, assign=True)
+            for n, p in m.named_parameters():
+                if n in rg_before:
+                    p.requires_grad_(rg_before[n])      # (assign keeps the requires_grad of the module's parameter)
+            rep.make_optimizers()
+            rep.objects_replaced = getattr(rep, 'objects_replaced', 0) + 1
+        else:
+            res = m.load_state_dict(sd, strict=False)
         return {'missing': list(res.missing_keys), 'unexpected': list(res.unexpected_keys)}
+    if k == 'deepcopy_model':
+        # "keep a copy of the model and go on with the copy" (EMA / best-model bookkeeping)
+        import copy
+        try:
+            rep.model = copy.deepcopy(m)
+        except Exception:
+            # torch cannot deep-copy a module that holds a tensor with an autograd graph (sampled coefficients,
+            # bias scales after a grad-enabled forward - also the one export() runs): the script then simply goes
+            # on with the model it has. Whether deepcopy works is not part of any claimed property: not compared.
+            return {'ok': 1}
+        rep.make_optimizers()
+        rep.objects_replaced = getattr(rep, 'objects_replaced', 0) + 1
+        return {'ok': 1}
     if k == 'read_cost':
         return {'cost': cost_values(m)}
     if k == 'read_summary':
@@ -688,7 +712,9 @@ def module_signature(mod):
                     d[k] = f'<{type(e).__name__}>'
         if hasattr(sm, 'bias') and not isinstance(getattr(sm, 'bias', None), nn.Module):
             d['has_bias'] = getattr(sm, 'bias', None) is not None
-        sig.append([n, type(sm).__name__, d])
+        # (the class name of the root is whatever torch.fx calls the traced module - it changes when a GraphModule is
+        # deep-copied - and carries no information about the network)
+        sig.append([n, type(sm).__name__ if n else 'root', d])
     return sig
 
 
